@@ -13,6 +13,7 @@ import ast
 from typing import Dict, List, Optional, Set, Tuple
 
 from .. import visitors as V
+from ..cfg import CFG
 from ..model import (AnalysisError, FuncInfo, Repo, call_name, dotted, kwarg,
                      module_calls, norm, walk_no_nested)
 
@@ -60,6 +61,9 @@ SET_ITER_BASELINE = {
     ('edb.pgsql.compiler.stmt.compile_SelectStmt',
      '{pgce.PathAspect.IDENTITY, pgce.PathAspect.VALUE}'):
         'two enum members, only used as dict keys',
+    ('edb.pgsql.compiler.relctx.include_specific_rvar', 'aspects'):
+        'callers in relgen pass a set display of PathAspect members; the '
+        'loop only registers the rvar in maps keyed by (path_id, aspect)',
 }
 
 # pgast fields that never have a textual form
@@ -136,6 +140,38 @@ def run(repo: Repo, ctx) -> None:
     ctx.floor('C13.R2', 5)
     setattrs = _set_attributes(repo)
     seen_baseline = set()
+    global _REPO
+    _REPO = repo
+    _RET_MEMO.clear()
+    _SET_PARAMS.clear()
+    # parameters that receive a plain set from a caller in scope (two rounds
+    # so that a set handed down two levels is still seen)
+    for _round in range(2):
+        for m in mods:
+            for f in repo._funcs_of(m):
+                ls = _local_sets(f, setattrs)
+                if not ls:
+                    continue
+                for c in walk_no_nested(f.node):
+                    if not isinstance(c, ast.Call):
+                        continue
+                    cal = _callee(f, c)
+                    if cal is None:
+                        continue
+                    ps = cal.params()
+                    if cal.cls is not None and ps and ps[0] in ('self',
+                                                                 'cls'):
+                        ps = ps[1:]
+                    for i, a in enumerate(c.args):
+                        if isinstance(a, ast.Name) and a.id in ls \
+                                and i < len(ps):
+                            _SET_PARAMS.setdefault(cal.qualname, set()).add(
+                                ps[i])
+                    for k in c.keywords:
+                        if k.arg and isinstance(k.value, ast.Name) \
+                                and k.value.id in ls:
+                            _SET_PARAMS.setdefault(cal.qualname, set()).add(
+                                k.arg)
     for m in mods:
         for f in repo._funcs_of(m):
             localsets = _local_sets(f, setattrs)
@@ -318,6 +354,157 @@ def run(repo: Repo, ctx) -> None:
 
 
 # ----------------------------------------------------------------------
+    _r6(repo, ctx)
+
+
+# hoisted CTE families of the pg compiler context; bodies of a GENERAL
+# family are produced by dispatching the compiler on IR under a context that
+# shares every family, so they may reference CTEs of the other families
+GENERAL_BEFORE_LEAF_OK = {
+    'param_ctes':
+        'bodies decode one query parameter (decoder IR: parameter -> casts '
+        '-> tuple/array unpacking); no pointer or type path occurs in it, '
+        'so it cannot reach range_for_ptrref / range_for_material_objtype',
+}
+
+
+def _r6(repo: Repo, ctx) -> None:
+    """Scope: a non-recursive WITH list defines before it references."""
+    ctx.floor('C13.R6', 4)
+    CTXM = 'edb.pgsql.compiler.context'
+    lvl = repo.cls(f'{CTXM}.CompilerContextLevel')
+    fams = {f for f, a in lvl.ann_fields.items()
+            if 'CommonTableExpr' in norm(a.annotation) and f.endswith('ctes')}
+    ic = repo.func(f'{PGC}.clauses.insert_ctes')
+    ctx.saw(ic)
+    splice = None
+    for n in ast.walk(ic.node):
+        if isinstance(n, ast.Assign) and norm(n.targets[0]).startswith(
+                'stmt.ctes[') and isinstance(n.value, (ast.List, ast.Tuple)):
+            splice = n.value
+    if splice is None:
+        raise AnalysisError('C13.R6: the CTE splice of insert_ctes not found')
+    order = []
+    for e in splice.elts:
+        t = norm(e.value if isinstance(e, ast.Starred) else e)
+        for f in fams:
+            if f'ctx.{f}' in t:
+                order.append(f)
+    if len(order) < 3:
+        raise AnalysisError(f'C13.R6: splice families {order}')
+    # classify each spliced family by how its bodies are built
+    kind = {}
+    where = {}
+    for m in scope_modules(repo):
+        for f in repo._funcs_of(m):
+            for n in walk_no_nested(f.node):
+                fam = None
+                if isinstance(n, ast.Assign) and isinstance(
+                        n.targets[0], ast.Subscript):
+                    t = norm(n.targets[0].value)
+                    if t.startswith('ctx.') and t[4:] in fams:
+                        fam = t[4:]
+                elif isinstance(n, ast.Expr) and isinstance(
+                        n.value, ast.Call) and isinstance(
+                        n.value.func, ast.Attribute) and \
+                        n.value.func.attr == 'append':
+                    t = norm(n.value.func.value)
+                    if t.startswith('ctx.') and t[4:] in fams:
+                        fam = t[4:]
+                if fam is None:
+                    continue
+                # the enclosing innermost `if`/`with` block that builds
+                # the CTE: does it dispatch the compiler?
+                blk = _miss_block(f.node, n, fam)
+                general = any(isinstance(c, ast.Call) and norm(c.func) in (
+                    'dispatch.visit', 'dispatch.compile')
+                    for b in blk for c in ast.walk(b))
+                kind[fam] = kind.get(fam, False) or general
+                where.setdefault(fam, []).append(f.qualname)
+    # the registry keyed by id and the ordered list hold the same CTEs
+    if kind.get('type_rewrite_ctes'):
+        kind['ordered_type_ctes'] = True
+    for fam in order:
+        if fam not in kind:
+            raise AnalysisError(f'C13.R6: no creation site found for {fam}')
+    leafs = [f for f in order if not kind[f]]
+    gens = [f for f in order if kind[f]]
+    ctx.ob('C13.R6', 'insert_ctes:families', bool(leafs) and bool(gens),
+           f'classification leaf={leafs} general={gens}', ic.loc,
+           sample=f'leaf={leafs} general={gens}', nontrivial=False)
+    for L in leafs:
+        for G in gens:
+            if G in GENERAL_BEFORE_LEAF_OK:
+                ctx.ob('C13.R6', f'insert_ctes:{G}<{L}', True, loc=ic.loc,
+                       sample='audited: ' + GENERAL_BEFORE_LEAF_OK[G],
+                       nontrivial=False)
+                continue
+            ok = order.index(L) < order.index(G)
+            ctx.ob('C13.R6', f'insert_ctes:{L}<{G}', ok,
+                   f'insert_ctes splices {G} before {L}: bodies of {G} are '
+                   f'compiled from IR ({where.get(G) or where.get("type_rewrite_ctes")}) '
+                   f'and may select from a {L} CTE, which a non-recursive '
+                   f'WITH list must define first (PostgreSQL: relation does '
+                   f'not exist)', ic.loc, sample=f'order={order}')
+    # a rewrite CTE is appended to the ordered list only after its body has
+    # been compiled (so CTEs created while compiling the body precede it)
+    rm = repo.func(f'{PGC}.relctx.range_for_material_objtype')
+    g = CFG(rm.node)
+    disp = [n.id for n in g.nodes if any(
+        norm(c.func) == 'dispatch.visit' for c in g.node_calls(n))]
+    apps = [n.id for n in g.nodes if n.kind == 'stmt' and norm(n.ast)
+            .startswith('ctx.ordered_type_ctes.append(')]
+    rw = [a for a in apps if disp and a in g.reachable(disp)]
+    ok = bool(disp) and bool(rw) and all(
+        g.always_before(a, disp) for a in rw)
+    ctx.ob('C13.R6', 'range_for_material_objtype:append-after-body', ok,
+           'a rewrite CTE is appended to ordered_type_ctes before its body '
+           'is compiled: CTEs created while compiling the body would be '
+           'listed after the CTE that references them', rm.loc,
+           sample='dispatch.visit(rewrite) dominates ordered_type_ctes.'
+                  'append')
+    # the ordered list is appended to wherever the id registry is filled
+    for reg in ('type_rewrite_ctes', 'type_inheritance_ctes'):
+        sets = [n.id for n in g.nodes if n.kind == 'stmt' and isinstance(
+            n.ast, ast.Assign) and norm(n.ast.targets[0]).startswith(
+                f'ctx.{reg}[')]
+        ok = bool(sets) and all(g.always_after(sid, apps, exits={g.exit})
+                                for sid in sets)
+        ctx.ob('C13.R6', f'range_for_material_objtype:{reg}-listed', ok,
+               f'a CTE registered in {reg} is not appended to '
+               f'ordered_type_ctes on every path: it is referenced but '
+               f'never defined in the WITH list', rm.loc,
+               sample=f'{reg}[...] = cte; ordered_type_ctes.append(cte)')
+
+
+def _miss_block(fn_node: ast.AST, stmt: ast.AST, fam: str) -> List[ast.AST]:
+    """Body of the cache-miss branch (`if <fam lookup> is None` /
+    `if key not in ctx.<fam>`) that encloses the registration."""
+    best = None
+    for n in ast.walk(fn_node):
+        if isinstance(n, ast.If) and f'ctx.{fam}' in norm(n.test) and any(
+                x is stmt for s_ in n.body for x in ast.walk(s_)):
+            if best is None or n.lineno >= best.lineno:
+                best = n
+    if best is not None:
+        return best.body
+    return _innermost_block(fn_node, stmt)
+
+
+def _innermost_block(fn_node: ast.AST, stmt: ast.AST) -> List[ast.AST]:
+    best = None
+    for n in ast.walk(fn_node):
+        if isinstance(n, (ast.If, ast.With)):
+            bodies = [n.body] + ([n.orelse] if isinstance(n, ast.If) else [])
+            for b in bodies:
+                if any(x is stmt for s_ in b for x in ast.walk(s_)):
+                    if best is None or (n.lineno >= best[0].lineno):
+                        best = (n, b)
+    if best is None:
+        return list(fn_node.body)
+    # widen a `with` block's parent `if` (the whole cache-miss branch)
+    return best[1]
+
 
 def _set_attributes(repo: Repo) -> Set[str]:
     """attribute names annotated as a set in *every* class (of the IR /
@@ -346,14 +533,46 @@ def _is_set_annotation(t: str) -> bool:
                     'MutableSet')
 
 
+_REPO: Optional[Repo] = None
+_RET_MEMO: Dict[str, bool] = {}
+_SET_PARAMS: Dict[str, Set[str]] = {}
+
+
+def _callee(f: FuncInfo, call: ast.Call) -> Optional[FuncInfo]:
+    if _REPO is None:
+        return None
+    q = _REPO.resolve_expr(f.module, call.func)
+    if q is None:
+        return None
+    return _REPO.functions.get(_REPO.canon(q))
+
+
+def _returns_plain_set(fi: FuncInfo, setattrs) -> bool:
+    """The callee hands back a hash-ordered set it built itself."""
+    if fi.qualname in _RET_MEMO:
+        return _RET_MEMO[fi.qualname]
+    _RET_MEMO[fi.qualname] = False
+    ls = _local_sets(fi, setattrs)
+    res = any(isinstance(r, ast.Return) and r.value is not None
+              and _set_kind(r.value, ls, setattrs)
+              for r in walk_no_nested(fi.node))
+    _RET_MEMO[fi.qualname] = bool(res)
+    return bool(res)
+
+
 def _local_sets(f: FuncInfo, setattrs) -> Set[str]:
-    out: Set[str] = set()
+    out: Set[str] = set(_SET_PARAMS.get(f.qualname, ()))
     for _ in range(2):
         for n in ast.walk(f.node):
             if isinstance(n, ast.Assign) and len(n.targets) == 1 and \
                     isinstance(n.targets[0], ast.Name):
                 if _set_kind(n.value, out, setattrs):
                     out.add(n.targets[0].id)
+                elif isinstance(n.value, ast.Call):
+                    cal = _callee(f, n.value)
+                    if cal is not None and cal is not f and \
+                            _returns_plain_set(cal, setattrs):
+                        out.add(n.targets[0].id)
             if isinstance(n, ast.AnnAssign) and isinstance(
                     n.target, ast.Name) and _is_set_annotation(
                         norm(n.annotation)):
